@@ -287,6 +287,40 @@ def transaction_bracket(ctx, pfx):
     return g
 
 
+def commit_is_last_fallible(ctx, pfx):
+    """after commit_transaction has succeeded publish must not fail any more: an
+    error returned after the durable write reports failure for a publish that took effect"""
+    prog = ctx.prog
+    b = prog.fn_and_inner(D + 'publish')
+    ev = find_events(b, 'StorageManager::commit_transaction')
+    if not ev:
+        ctx.ob(pfx + '.ORDER.commit_last', 'RF-ORDER', False, b.path, '%s:%s' % (b.file, b.line), 'publish does not commit', key='RF-ORDER|commit_last|nocommit')
+        return
+    site = ev[0][1][4]
+    ok_t = None
+    for g in b.guards():
+        c = g['cond']
+        if c[0] == 'discr' and any(call_is(x, 'StorageManager::commit_transaction') and x[4] == site for x in strip_result(c[1])):
+            names = variant_names(b, g)
+            for v, tb in g['term']['vals']:
+                if names.get(v) in ('Ok', 'Continue'):
+                    ok_t = tb
+            if ok_t is None and names:
+                listed = {v for v, tb in g['term']['vals']}
+                if any(n in ('Ok', 'Continue') for val, n in names.items() if val not in listed):
+                    ok_t = g['term']['else']
+    if ok_t is None:
+        ctx.ob(pfx + '.ORDER.commit_last', 'RF-ORDER', False, b.path, '%s:%s' % (b.file, ev[0][0]['line']),
+               'cannot find the success branch of commit_transaction', key='RF-ORDER|commit_last|nobranch')
+        return
+    ks = b.exits((ok_t, 0)) - {'Diverge'}
+    ok = ks <= {'Ok'}
+    ctx.ob(pfx + '.ORDER.commit_last', 'RF-ORDER', ok, b.path, '%s:%s' % (b.file, ev[0][0]['line']),
+           'after a successful commit_transaction publish can only return Ok' if ok else
+           'publish can still return an error after commit_transaction succeeded (exit kinds %s): the caller is told the publish '
+           'failed although the new epoch is durable' % sorted(ks), key='RF-ORDER|commit_last')
+
+
 # ---------------------------------------------------------------- RF-SNAP
 
 def snapshot_rules(ctx, pfx, requests=REQUESTS):
